@@ -163,6 +163,121 @@ theorem exec_ok {s s' : St} {who : Who} {slot fee x y z paid : Nat} {throw fail 
     · unfold RecOK SupplyOK setAct glvOut burnMt St.glvRec St.glvVault St.mtSupply at *
       by_cases hm : act.m = 0 <;> simp only [hm, if_true, if_false] at * <;> omega
 
+/-! ### shifts -/
+
+theorem screate_some {s s' : St} {who : Who} {i a b c el : Nat} (h : screate s who i a b c el = some s') :
+    who = .keeper ∧ i < 2 ∧ a < 2 ∧ b < 2 ∧ a ≠ b ∧ s.shifts i = none ∧ c ≠ 0 ∧ c ≤ s.glvVault a ∧
+    s.lastShiftAt + SHIFT_INTERVAL ≤ s.now ∧ s' = setShift s i (some ⟨0, a, b, c, s.now, el⟩) := by
+  unfold screate at h
+  by_cases h0 : who ≠ .keeper ∨ i ≥ 2 ∨ a ≥ 2 ∨ b ≥ 2 ∨ a = b
+  · simp [h0] at h
+  · rw [if_neg h0] at h
+    cases hs : s.shifts i with
+    | some _ => simp [hs] at h
+    | none =>
+      simp only [hs] at h
+      by_cases h1 : c = 0 ∨ s.glvVault a < c ∨ s.now < s.lastShiftAt + SHIFT_INTERVAL
+      · simp [h1] at h
+      · simp only [h1, if_false, Option.some.injEq] at h
+        have hk : who = .keeper := by
+          by_cases hw : who = .keeper
+          · exact hw
+          · exact absurd (Or.inl hw) h0
+        refine ⟨hk, ?_, ?_, ?_, ?_, rfl, ?_, ?_, ?_, h.symm⟩ <;> omega
+
+theorem scomplete_some {s s' : St} {i x : Nat} {sh : Shift} (h : scomplete s i sh x = some s') :
+    sh.amount ≤ s.glvRec sh.src ∧ sh.amount ≤ s.mtSupply sh.src ∧
+    s' = setShift { (glvIn (mintMt (glvOut (burnMt s sh.src sh.amount) sh.src sh.amount) sh.dst x) sh.dst x) with lastShiftAt := s.now }
+      i (some { sh with state := 1 }) := by
+  unfold scomplete at h
+  by_cases h0 : s.glvRec sh.src < sh.amount ∨ s.mtSupply sh.src < sh.amount
+  · simp [h0] at h
+  · simp only [h0, if_false, Option.some.injEq] at h
+    exact ⟨by omega, by omega, h.symm⟩
+
+theorem sexec_some {s s' : St} {who : Who} {i fee x paid : Nat} {throw fail : Bool} {o : Outcome}
+    (h : sexec s who i fee throw fail x = some (s', o, paid)) :
+    ∃ sh, s.shifts i = some sh ∧ sh.state = 0 ∧ who = .keeper ∧ i < 2 ∧
+      paid = (if fee ≤ sh.execLamports then fee else sh.execLamports) ∧
+      ((o = .cancelled ∧ throw = false ∧ s' = setShift s i (some { sh with state := 2 })) ∨
+       (o = .completed ∧ s.lastShiftAt + SHIFT_INTERVAL ≤ s.now ∧ sh.amount ≤ s.glvVault sh.src ∧ scomplete s i sh x = some s')) := by
+  unfold sexec at h
+  by_cases h0 : who ≠ .keeper ∨ i ≥ 2
+  · simp [h0] at h
+  · rw [if_neg h0] at h
+    cases ha : s.shifts i with
+    | none => simp [ha] at h
+    | some sh =>
+      simp only [ha] at h
+      by_cases h1 : sh.state ≠ 0
+      · simp [h1] at h
+      · rw [if_neg h1] at h
+        by_cases h2 : s.now - s.priceTs > HEARTBEAT
+        · simp [h2] at h
+        · rw [if_neg h2] at h
+          by_cases h3 : s.priceTs < sh.createdAt
+          · simp [h3] at h
+          · rw [if_neg h3] at h
+            have hk : who = .keeper := by
+              by_cases hw : who = .keeper
+              · exact hw
+              · exact absurd (Or.inl hw) h0
+            have hi : i < 2 := by
+              have : ¬ i ≥ 2 := fun e => h0 (Or.inr e)
+              omega
+            have hst : sh.state = 0 := by simpa using h1
+            refine ⟨sh, rfl, hst, hk, hi, ?_⟩
+            by_cases h4 : sh.createdAt + REQUEST_EXPIRATION < s.priceTs
+            · simp only [h4, if_true] at h
+              cases throw with
+              | true => simp at h
+              | false =>
+                simp only [Bool.false_eq_true, if_false, Option.some.injEq, Prod.mk.injEq] at h
+                obtain ⟨rfl, rfl, rfl⟩ := h
+                exact ⟨rfl, Or.inl ⟨rfl, rfl, rfl⟩⟩
+            · simp only [h4, if_false] at h
+              by_cases h5 : fail = true ∨ s.now < s.lastShiftAt + SHIFT_INTERVAL ∨ s.glvVault sh.src < sh.amount
+              · simp only [h5, if_true] at h
+                cases throw with
+                | true => simp at h
+                | false =>
+                  simp only [Bool.false_eq_true, if_false, Option.some.injEq, Prod.mk.injEq] at h
+                  obtain ⟨rfl, rfl, rfl⟩ := h
+                  exact ⟨rfl, Or.inl ⟨rfl, rfl, rfl⟩⟩
+              · simp only [h5, if_false] at h
+                cases hc : scomplete s i sh x with
+                | none => simp [hc] at h
+                | some s1 =>
+                  simp only [hc, Option.map_some, Option.some.injEq, Prod.mk.injEq] at h
+                  obtain ⟨rfl, rfl, rfl⟩ := h
+                  exact ⟨rfl, Or.inr ⟨rfl, by omega, by omega, rfl⟩⟩
+
+theorem sclose_some {s s' : St} {who : Who} {i : Nat} (h : sclose s who i = some s') :
+    who = .keeper ∧ i < 2 ∧ (s.shifts i).isSome ∧ s' = setShift s i none := by
+  unfold sclose at h
+  by_cases h0 : who ≠ .keeper ∨ i ≥ 2
+  · simp [h0] at h
+  · rw [if_neg h0] at h
+    cases ha : s.shifts i with
+    | none => simp [ha] at h
+    | some sh =>
+      simp only [ha, Option.some.injEq] at h
+      have hk : who = .keeper := by
+        by_cases hw : who = .keeper
+        · exact hw
+        · exact absurd (Or.inl hw) h0
+      exact ⟨hk, by omega, rfl, h.symm⟩
+
+theorem sexec_ok {s s' : St} {who : Who} {i fee x paid : Nat} {throw fail : Bool} {o : Outcome}
+    (h : sexec s who i fee throw fail x = some (s', o, paid)) (hr : RecOK s) (hs : SupplyOK s) :
+    RecOK s' ∧ SupplyOK s' := by
+  obtain ⟨sh, _, _, _, _, _, hcase⟩ := sexec_some h
+  rcases hcase with ⟨_, _, rfl⟩ | ⟨_, _, _, hc⟩
+  · exact ⟨hr, hs⟩
+  · obtain ⟨_, _, rfl⟩ := scomplete_some hc
+    exact ⟨recOK_glvIn (recOK_mintMt (recOK_glvOut (recOK_burnMt hr _ _) _ _) _ _) _ _,
+      by unfold SupplyOK setShift glvIn mintMt glvOut burnMt at *; split <;> split <;> exact hs⟩
+
 /-- (iii) and supply well-definedness are preserved by every transaction -/
 theorem step_ok (s : St) (op : Op) (hr : RecOK s) (hs : SupplyOK s) : RecOK (step s op).1 ∧ SupplyOK (step s op).1 := by
   cases op with
@@ -195,6 +310,27 @@ theorem step_ok (s : St) (op : Op) (hr : RecOK s) (hs : SupplyOK s) : RecOK (ste
     | none => exact ⟨hr, hs⟩
     | some s' =>
       obtain ⟨act, _, _, _, rfl⟩ := close_some h
+      exact ⟨hr, hs⟩
+  | screate who i a b c el =>
+    simp only [step]
+    cases h : screate s who i a b c el with
+    | none => exact ⟨hr, hs⟩
+    | some s' =>
+      obtain ⟨_, _, _, _, _, _, _, _, _, rfl⟩ := screate_some h
+      exact ⟨hr, hs⟩
+  | sexec who i fee throw fail x =>
+    simp only [step]
+    cases h : sexec s who i fee throw fail x with
+    | none => exact ⟨hr, hs⟩
+    | some r =>
+      obtain ⟨s', o, paid⟩ := r
+      exact sexec_ok h hr hs
+  | sclose who i =>
+    simp only [step]
+    cases h : sclose s who i with
+    | none => exact ⟨hr, hs⟩
+    | some s' =>
+      obtain ⟨_, _, _, rfl⟩ := sclose_some h
       exact ⟨hr, hs⟩
 
 theorem exec_none_of_done {s : St} {slot : Nat} {a : Act} (ha : s.acts slot = some a) (hd : a.state ≠ 0)
